@@ -102,6 +102,8 @@ class Run:
         self.policy = None
         self.initial_state_id = None
         self.steps_completed_at_exception = None
+        self.sibling_changed = None
+        self.live = {}
 
 
 def execute_scripted(subject, script, shots="subject", simcls=None, program=None, keep_states=False):
@@ -114,10 +116,31 @@ def execute_scripted(subject, script, shots="subject", simcls=None, program=None
     run.policy = policy
     shots = subject["shots"] if shots == "subject" else shots
 
+    live = run.live = {}  # id(state) -> [state, checksum]: every branch state seen so far, kept alive
+    partners = {}  # id(state) -> ids of other live states whose float/complex arrays overlap in memory
+
+    def register(st):
+        sid = id(st)
+        if st is None or sid in live:
+            return
+        mine = _arrays(st)
+        partners[sid] = set()
+        for tid, (other, _c) in live.items():
+            theirs = _arrays(other)
+            if any(np.may_share_memory(x, y) for x in mine for y in theirs):
+                partners[sid].add(tid)
+                partners[tid].add(sid)
+        live[sid] = [st, _checksum(st) if partners[sid] else None]
+        for tid in partners[sid]:
+            if live[tid][1] is None:
+                live[tid][1] = _checksum(live[tid][0])
+
     def on_enter(ev):
         ev["sub"] = None
-        ev["state_id"] = id(ev["state"])
-        ev["state_norm"] = _norm(ev["state"])
+        st = ev["state"]
+        ev["state_id"] = id(st)
+        ev["state_norm"] = _norm(st)
+        register(st)
         if not keep_states:
             ev.pop("state")
         ev.pop("instruction")
@@ -127,6 +150,23 @@ def execute_scripted(subject, script, shots="subject", simcls=None, program=None
         ev["sub"] = [(tuple(b.outcome), b.frequency, None if b.state is None else id(b.state), _norm(b.state)) for b in branches]
         if keep_states:
             ev["sub_states"] = [b.state for b in branches]
+        # evolving one branch must not change the state of another branch: only states whose arrays overlap
+        # in memory with a state this step touched can be affected, so only those are re-hashed
+        touched = {ev["state_id"]} | {id(b.state) for b in branches if b.state is not None}
+        suspects = set()
+        for sid in touched:
+            suspects |= partners.get(sid, set())
+        for sid in suspects - touched:
+            st, old = live[sid]
+            new_sum = _checksum(st)
+            if old is not None and new_sum != old:
+                run.sibling_changed = (ev["idx"], ev["type"])
+            live[sid][1] = new_sum
+        for b in branches:
+            register(b.state)
+        for sid in touched:
+            if sid in live and partners.get(sid):
+                live[sid][1] = _checksum(live[sid][0])
 
     mon.on_enter = on_enter
     mon.on_exit = on_exit
@@ -154,6 +194,32 @@ def execute_scripted(subject, script, shots="subject", simcls=None, program=None
     run.shots = shots
     run.seam_stats = {"draws": policy.n_draws, "scripted": policy.n_scripted}
     return run
+
+
+def _arrays(state):
+    out = []
+    for v in vars(state).values():
+        if isinstance(v, np.ndarray) and v.dtype.kind in "fc":
+            out.append(v)
+        elif isinstance(v, list):
+            out.extend(x for x in v if isinstance(x, np.ndarray) and x.dtype.kind in "fc")
+    return out
+
+
+def _checksum(state):
+    """Digest of the numerical content (float / complex arrays, also inside lists) of a state object."""
+    import hashlib
+
+    h = hashlib.sha1()
+    for k, v in sorted(vars(state).items()):
+        if isinstance(v, np.ndarray) and v.dtype.kind in "fc":
+            h.update(k.encode())
+            h.update(np.ascontiguousarray(v).tobytes())
+        elif isinstance(v, list) and v and all(isinstance(x, (np.ndarray, complex, float, np.number)) for x in v):
+            h.update(k.encode())
+            for x in v:
+                h.update(np.ascontiguousarray(x).tobytes())
+    return h.hexdigest()
 
 
 def _norm(state):
@@ -206,6 +272,8 @@ def is_measurement(type_name):
 
 def check_refinement(subject, run, prop="C03"):
     """Replay the recorded step events against a tiny sequential model of the branch tree."""
+    if run.sibling_changed is not None:
+        raise Violation(prop, "chain-rule", "branch-state-changed-by-sibling-step", "executing instruction %d (%s) on one branch changed the numerical content of another branch's state (the branches share array memory)" % run.sibling_changed)
     N = run.shots
     prog = subject["program"]
     active = list(range(subject["d"]))
